@@ -16,10 +16,10 @@ ENGINES_DOC = [
      "kind_free_text": "real ServerBuilder servers on loopback, raw-socket client with byte-level control, harness handlers writing an event log, offline history checkers"},
 ]
 
-def asan(prop, inner):
+def asan(prop, inner, package="vmon", binary="vmon"):
     """E6: the quick-volume workload of `inner` repeated under an ASan build (thorough tier only)."""
     return {"name": f"asan:{inner}", "kind": "cmd",
-            "cmd": ["python3", "{verif}/py/asan_engine.py", prop, inner, "quick", "{seed}", "{out}"],
+            "cmd": ["python3", "{verif}/py/asan_engine.py", prop, inner, "quick", "{seed}", "{out}", package, binary],
             "tiers": ("thorough",), "optional": True, "timeout_s": 4000}
 
 
@@ -226,6 +226,7 @@ PROPS = {
         "technique": "runtime history monitor: append-only seq-ordered event log written by gated / stepping / 8 MB-response / panicking harness handlers and raw-socket clients on real servers; offline oracle for exactly-once entry, exactly-one ending, no progress after cancel, detached completion, delivery to clients that stay, panic isolation",
         "engines": [
             {"name": "c16-disconnect", "bin": "vmon_hist", "package": "hist"},
+            asan("C16", "c16-disconnect", "hist", "vmon_hist"),
         ],
         "assumptions": ASSUME_COMMON,
     },
@@ -238,6 +239,7 @@ PROPS = {
         "engines": [
             {"name": "c17-shutdown", "bin": "vmon_hist", "package": "hist"},
             {"name": "c17-tls", "bin": "vmon_tls", "package": "tlsmon"},
+            asan("C17", "c17-shutdown", "hist", "vmon_hist"),
         ],
         "assumptions": ASSUME_COMMON,
     },
@@ -250,6 +252,7 @@ PROPS = {
         "engines": [
             {"name": "c20-handshake", "bin": "vmon_wsp", "package": "wsp"},
             {"name": "c20-tls", "bin": "vmon_tls", "package": "tlsmon"},
+            asan("C20", "c20-handshake", "wsp", "vmon_wsp"),
         ],
         "assumptions": ASSUME_COMMON,
     },
